@@ -12,8 +12,11 @@
 
    The function, in the order of the source:
      1. clear head.matching_scores of every head of every flow state;
-     2. states_to_be_removed = uids of the flow states with
-          _is_done_flow(fs) and (now - fs.status_updated) > timedelta(seconds=AGE) and fs.activated == 0;
+     2. needed_parent_uids = the parent_uid of every flow state that is not done or is activated
+        (computed from the state BEFORE anything is removed);
+        states_to_be_removed = uids of the flow states with
+          _is_done_flow(fs) and (now - fs.status_updated) > timedelta(seconds=AGE) and fs.activated == 0
+          and fs.uid not in needed_parent_uids;
      3. for each of them: if its parent_uid is set, the parent is (still) in flow_states and lists
         it as a child, remove it from the parent's child_flow_uids; remove it from
         flow_id_states[flow_id] (KeyError / ValueError = None); delete it from flow_states;
@@ -56,7 +59,8 @@ Record cfg := mkCfg {
   needs_not_activated : bool;
   done_set : list string;
   purge_children : bool;         (* step 3b present in the source: child lists *)
-  purge_scopes : bool            (* step 3b present in the source: scope flow lists *)
+  purge_scopes : bool;           (* step 3b present in the source: scope flow lists *)
+  needs_unneeded : bool          (* the source keeps an ended flow that is the parent of a running or activated flow *)
 }.
 
 Fixpoint slook {A} (l : list (string * A)) (k : string) : option A :=
@@ -139,8 +143,20 @@ Fixpoint rebuild_actions (old : list (string * Z)) (uids : list string) (acc : l
 Definition clear_scores (s : state) : state :=
   mkState (map (fun kv => (fst kv, clear_heads (snd kv))) (flows s)) (by_flow s) (actions s) (s_rest s).
 
-Definition to_remove (c : cfg) (now : Z) (s : state) : list string :=
-  map fst (filter (fun kv => removable c now (snd kv)) (flows s)).
+(* needed_parent_uids *)
+Definition keeps_parent (c : cfg) (i : inst) : bool := negb (is_done c i) || negb (i_activated i =? 0).
+
+Definition needed_parents (c : cfg) (s : state) : list string :=
+  flat_map (fun kv => if keeps_parent c (snd kv) then match i_parent (snd kv) with Some p => [p] | None => [] end else [])
+           (flows s).
+
+(* the removal condition of step 2, for the instance i stored under uid u; `pre` = the state the
+   needed parents are computed from *)
+Definition rm (c : cfg) (now : Z) (pre : state) (u : string) (i : inst) : bool :=
+  removable c now i && (if needs_unneeded c then negb (smem u (needed_parents c pre)) else true).
+
+Definition to_remove_gen (P : string -> inst -> bool) (s : state) : list string :=
+  map fst (filter (fun kv => P (fst kv) (snd kv)) (flows s)).
 
 Definition all_action_uids (s : state) : list string := flat_map (fun kv => i_actions (snd kv)) (flows s).
 
@@ -158,9 +174,10 @@ Definition purge_inst (c : cfg) (rem : list string) (i : inst) : inst :=
 Definition purge_flows (c : cfg) (rem : list string) (l : list (string * inst)) : list (string * inst) :=
   map (fun kv => (fst kv, purge_inst c rem (snd kv))) l.
 
-Definition cleanup (c : cfg) (now : Z) (s : state) : option state :=
+(* steps 1, 3, 3b, 4 for a removal condition P that is fixed before the loop *)
+Definition cleanup_gen (c : cfg) (P : string -> inst -> bool) (s : state) : option state :=
   let s1 := clear_scores s in
-  let rem := to_remove c now s1 in
+  let rem := to_remove_gen P s1 in
   match fold_left remove_one rem (Some s1) with
   | None => None
   | Some s2 =>
@@ -169,6 +186,8 @@ Definition cleanup (c : cfg) (now : Z) (s : state) : option state :=
     | Some acts => Some (mkState (purge_flows c rem (flows s2)) (by_flow s2) acts (s_rest s2))
     end
   end.
+
+Definition cleanup (c : cfg) (now : Z) (s : state) : option state := cleanup_gen c (rm c now s) s.
 
 (* ---------------------------------------------------------------------------------- *)
 (* what event dispatch reads (the part modelled for the behavioural claim):
@@ -222,7 +241,7 @@ Definition refs_okb (s : state) : bool :=
     (by_flow s).
 
 (* sanity *)
-Definition ex_cfg : cfg := mkCfg 5 true true true ["FINISHED"; "STOPPED"] true true.
+Definition ex_cfg : cfg := mkCfg 5 true true true ["FINISHED"; "STOPPED"] true true true.
 Definition ex_state : state :=
   mkState
     [ ("m", mkInst "main" "STARTED" 0 0 None ["a1"; "b1"] ["act1"] [("h0", [1; 2])] [("sc", ["a1"; "b1"])] 0);
